@@ -32,7 +32,7 @@ META = {
 }
 
 _inits = st.sampled_from([to_tagged([]), to_tagged({"a": 1}), to_tagged([1, "x"]), to_tagged(0), to_tagged({"n": [1, (2, 3)]}), to_tagged((1, 2)), to_tagged([b"\x00"])])
-_seqs = st.lists(st.sampled_from([to_tagged(1), to_tagged(True), to_tagged(1.0), to_tagged([1]), to_tagged((1,)), to_tagged("1"), to_tagged({"a": 1}), to_tagged(2)]), min_size=2, max_size=6)
+_seqs = st.lists(st.sampled_from([to_tagged(1), to_tagged(True), to_tagged(1.0), to_tagged([1]), to_tagged((1,)), to_tagged("1"), to_tagged({"a": 1}), to_tagged(2), to_tagged(None), to_tagged(0), to_tagged([]), to_tagged("")]), min_size=2, max_size=6)
 
 
 @st.composite
@@ -46,6 +46,10 @@ def wfcond(draw):
     if trans in ("append", "count", "same") and draw(st.integers(0, 3)) == 0:
         s["serdes"] = "json"
         s["init"] = draw(st.sampled_from([to_tagged([]), to_tagged(0), to_tagged({"a": 1})]))
+    if draw(st.integers(0, 2)) == 0:
+        s["direct"] = True  # decisions built with the dataclass constructor instead of the factory
+    if trans in ("append", "count", "dict") and draw(st.integers(0, 4)) == 0:
+        s["until"] = draw(st.integers(1, 5))  # purely state-based stop rule
     if draw(st.integers(0, 7)) == 0:
         s["fail_at"] = draw(st.integers(1, n_cont + 1))
     if draw(st.integers(0, 6)) == 0:
